@@ -91,8 +91,8 @@ def piecewise(h, name, pieces, final, flag=True, preset=None, init=None, prefix_
         h.padmethod.bitcnt = preset
     cnts = []
     for p in pieces:
-        if prefix_of is not None and p:
-            h.update(p + prefix_of, bitlen=8 * len(p))
+        if prefix_of is not None:
+            h.update(p + prefix_of, bitlen=8 * len(p))          # (an empty piece becomes: a stale buffer with bitlen=0)
         else:
             h.update(p)
         cnts.append(h.padmethod.bitcnt)
